@@ -144,6 +144,21 @@ def harness_build():
     return rc, o
 
 
+def run_minlink(run, theorem):
+    """Minimal-link probes: programs importing a single algorithm package (configuration dimension of C07/C11/C17)."""
+    src = os.path.join(VERIF, 'harness')
+    for name in ('hmaconly', 'ecdsaonly'):
+        with Lock('harness'):
+            rc, o, dt = sh(['go', 'run', './minlink/' + name], cwd=src, env=GOENV, timeout=600)
+        run.cov['evaluations'] += 1
+        lines = [l for l in o.split('\n') if l.startswith('FAIL')]
+        if rc != 0 and not lines:
+            run.broke('minimal-link probe %s does not build/run' % name, o[-800:])
+        for l in lines[:4]:
+            run.fail(source='oracle:minlink', op='minimal-link', what='binary importing only one algorithm package: ' + name,
+                     input='go run ./minlink/%s (in /verif/harness)' % name, observed=l, expected='OK', theorem=theorem)
+
+
 def run_harness(args, timeout=1800):
     env = dict(GOENV)
     rc, o, dt = sh([os.path.join(BIN, 'harness')] + args, cwd=BUILD, env=env, timeout=timeout)
